@@ -154,3 +154,19 @@ VH_ENTRY vh_arith_prog() {
   delete code; free(bc);
   VH_END();
 }
+
+#ifdef VH_VALID_UPTO
+// ---- C02 / C01: the loader's shared operand test.  Every run-time lemma that takes a class number, an attribute code, a user-attribute or
+// feature index "as the loader lets it through" (classmap_*, slot_attr_*, ...) rests on this: an operand is accepted exactly when it is BELOW
+// the count it indexes (and the count is not 0); otherwise the code is marked out_of_range_data and will not be run.
+extern "C" bool vh_valid_upto(const vh_decoder *self, uint16 limit, uint16 x) asm("_ZNK9graphite22vm7Machine4Code7decoder10valid_uptoEtt");
+VH_ENTRY vh_valid_upto_lemma() {
+  Machine::Code *code = vh_new<Machine::Code>(); memset((void *)code, 0, sizeof(Machine::Code));
+  vh_decoder *d = vh_new<vh_decoder>(); memset((void *)d, 0, sizeof(vh_decoder)); d->_code = code;
+  uint16 limit = nondet_u16(), x = nondet_u16();
+  bool r = vh_valid_upto(d, limit, x);
+  ASSERT(r == (limit != 0 && x < limit), "accepted exactly when the operand is below the count");
+  ASSERT(r ? code->_status == Machine::Code::loaded : code->_status == Machine::Code::out_of_range_data, "a refused operand marks the code as not runnable");
+  VH_END();
+}
+#endif
